@@ -123,6 +123,15 @@ func PlanFromSeed(seed int64, k int) Plan {
 		p.FirstPeer = 0
 		p.Extend, p.ReorgDepth = 2, 0
 	}
+	if k == 2 {
+		// A fixed scenario: a peer on a valid but LIGHTER fork (two blocks
+		// from three below the honest tip); after the restart it pushes them.
+		p.ChainLen = 80
+		p.Checkpoints = nil
+		p.Peers = []PeerPlan{{Kind: BHonest}, {Kind: BLighter, At: 77}}
+		p.FirstPeer = 0
+		p.Extend, p.ReorgDepth = 0, 0
+	}
 	if k == 1 {
 		// A fixed scenario: a peer that lies ONLY in its filter-header
 		// checkpoints (its cfheaders and filters are correct), next to an
@@ -364,12 +373,65 @@ func (b *Built) startHammer() {
 // StopBackground stops sampler and flappers.
 func (b *Built) StopBackground() { close(b.stopBg); b.bgWg.Wait() }
 
+// RestartBackground starts sampler and flappers again after StopBackground.
+func (b *Built) RestartBackground() {
+	b.stopBg = make(chan struct{})
+	b.StartBackground()
+}
+
 // SafetyViolation returns the first unsafe best block seen by the sampler.
 func (b *Built) SafetyViolation() string {
 	if p := b.safety.Load(); p != nil {
 		return *p
 	}
 	return ""
+}
+
+// PushSideChains makes every connected peer whose own best chain differs from
+// the honest one (stale, lighter fork, invalid header) announce it with an
+// unsolicited headers message starting right after the point where it forks
+// from the honest chain, as a peer would after the client asked it.
+func (b *Built) PushSideChains() int {
+	honest := map[*netsim.Peer]bool{}
+	for _, hp := range b.Honest {
+		honest[hp] = true
+	}
+	tip := b.Tip()
+	n := 0
+	for _, p := range b.W.Peers {
+		if honest[p] || p.Conn() == nil || p.Silent.Load() {
+			continue
+		}
+		pt := p.View.Tip()
+		if tip.Ancestor(pt.Height) == pt {
+			continue // on the honest chain (stale): nothing to push
+		}
+		f := chaingen.ForkPoint(pt, tip)
+		path := pt.Path()
+		side := path[f.Height+1:]
+		if len(side) == 0 || len(side) > 2000 {
+			continue
+		}
+		p.AnnounceHeaders(side...)
+		n++
+	}
+	return n
+}
+
+// WatchStable samples the public API for d and returns a description of the
+// first sample whose best block is not n ("" if all were n).
+func (b *Built) WatchStable(n *chaingen.Node, d time.Duration) (string, int) {
+	start := time.Now()
+	k := 0
+	for time.Since(start) < d {
+		s := b.W.Sample()
+		k++
+		if s.Err == "" && s.BestHash != n.Hash {
+			return fmt.Sprintf("best block became height %d (%s) while the honest most-work tip stayed at height %d", s.BestHeight, s.BestHash.String()[:12], n.Height), k
+		}
+		time.Sleep(3 * time.Millisecond)
+	}
+	return "", k
 }
 
 // SetHonestTip moves every honest peer to a new best tip and announces it.
